@@ -2115,7 +2115,15 @@ impl Connection {
             false,
         );
 
+        let was_closed = self.state.is_closed();
         self.process_decrypted_packet(now, remote, Some(packet_number), packet.into())?;
+        if !was_closed && self.state.is_closed() {
+            // The connection-creating packet may itself carry the peer's CONNECTION_CLOSE (the
+            // client gave up before its first flight got through): start draining properly, as
+            // `handle_packet` does, instead of leaving the idle timer to report a second loss
+            self.close_common();
+            self.set_close_timer(now);
+        }
         if let Some(data) = remaining {
             self.handle_coalesced(now, remote, ecn, data);
         }
